@@ -13,7 +13,7 @@ from __future__ import annotations
 import json
 import os
 
-from harness import c06_gen, c06_pat, c06_spec, common
+from harness import c06_checks, c06_gen, c06_pat, c06_spec, common
 from harness.common import cbool, clist, cnat, copt
 
 PROPERTY = "C06"
@@ -62,7 +62,7 @@ class RealPattern:
         self.abstract = None
         if self.variants:
             try:
-                self.abstract = c06_pat.abstract_of_real(self.variants[0]._target_pattern)
+                self.abstract = c06_pat.abstract_of_real(self.variants[0]._target_pattern, getattr(fn, "created", None))
                 for v in self.variants[1:]:
                     c06_pat.abstract_of_real(v._target_pattern)       # fail-closed on the copies as well
             except c06_pat.TranslationError as e:
@@ -117,6 +117,8 @@ def features(pdesc, commute=False):
             f.add("domain")
         if nd.get("prefix"):
             f.add("prefix-op")
+        if nd.get("dom_prefix") is not None:
+            f.add("prefix-domain")
         if nd.get("other_ins"):
             f.add("other-inputs")
         if nd.get("other_attrs") is False:
@@ -158,7 +160,8 @@ def features(pdesc, commute=False):
 def swap_variants(pdesc):
     """The pattern under swaps of the operands of its commutative (binary) operators -- from the description."""
     idx = [j for j, nd in enumerate(pdesc["nodes"])
-           if nd["op"] in COMMUTATIVE_OPS and not nd.get("dom") and not nd.get("prefix") and len(nd["ins"]) == 2]
+           if nd["op"] in COMMUTATIVE_OPS and not nd.get("dom") and not nd.get("prefix") and nd.get("dom_prefix") is None
+           and len(nd["ins"]) == 2]
     out = []
     import itertools
     for bits in itertools.product([False, True], repeat=len(idx)):
@@ -431,6 +434,7 @@ def _replay(m):
 COMMUTE_NONBINARY_KEY = "C06:commute:commutative-op-not-binary:AssertionError"
 COMMUTE_OR_KEY = "C06:commute:or-value-without-tag-var:ValueError"
 OUT_KEY = "C06:pattern-node-with-more-outputs-than-graph-node:match-reported"
+COMMUTE_UNRECORDED_KEY = "C06:commute:node-built-by-another-opset-builder:KeyError"
 
 
 ITER_KEY = "C06:several-output-nodes-without-op-identifier:shared-node-iterator:match-missed"
@@ -552,7 +556,9 @@ def run(ctx):
                "documented in node_value_checkers.md: coq/Match/Committed.v, proved equal to the matcher model (C06_match_iff_committed) and evaluated "
                "independently from the pattern description on every triple (verdict, bindings, node order, outputs must coincide); instances of the "
                "unordered meaning that are not matched for that reason alone are counted (or_committed_choice)")
-    ctx.assume("tag variables of OR patterns are fresh names; constants are float32 scalars / 1-D lists away from the tolerance boundary")
+    ctx.assume("tag variables of OR patterns are fresh names; constants are finite float32 tensors (any shape); the tolerance test is read exactly "
+               "(rationals): host constants on which the double rounding inside math.isclose decides differently from the exact bound are "
+               "left out by the generators (counted: tolerance_bound.rounding_excluded); negative tolerances (math.isclose raises) not generated")
     ctx.check_props(extra_files=["Match/Corr.v"])
     import time
     batch = Batch(ctx)
@@ -574,6 +580,11 @@ def run(ctx):
         if be["error"] == "AssertionError" and nonbinary:
             ctx.violation(COMMUTE_NONBINARY_KEY, "RewriteRuleSet(commute=True) raises AssertionError for a pattern in which a commutative "
                           "operator (Add, Mul, Sum, Max, ...) has a number of inputs other than 2", {"p": be["p"], "commute": True})
+        elif be["error"] == "KeyError" and any(nd.get("dom_prefix") is not None for nd in be["p"]["nodes"]):
+            ctx.violation(COMMUTE_UNRECORDED_KEY, "RewriteRuleSet(commute=True) raises KeyError for a pattern that contains a commutative binary "
+                          "operator and a node made by another opset builder (pattern.torch_module_op / OpsetPatternBuilder(PrefixPattern)): such "
+                          "nodes are not in GraphPattern._nodes, so NodeOutputPattern.clone finds no copy of the producer in node_map",
+                          {"p": be["p"], "commute": True})
         elif be["error"] == "ValueError" and has_untagged_or:
             ctx.violation(COMMUTE_OR_KEY, "RewriteRuleSet(commute=True) raises ValueError for a pattern containing an OrValue without tag_var: "
                           "BacktrackingOr.clone passes the defaulted tag_values with tag_var=None", {"p": be["p"], "commute": True})
@@ -614,7 +625,9 @@ def run(ctx):
                                         for k, v in sorted(batch.theorem_feats.items())},
               feature_combinations_distinct=len(batch.fcomb),
               feature_combinations_with_a_match=sum(1 for v in batch.fcomb.values() if v[1]))
-    ctx.cover(generator="corpus/C06 (findings, feature cases) + bounded-exhaustive family (351 patterns with <=3 node patterns over "
+    ctx.cover(tolerance_bound=dict(c06_gen.TIGHT_STATS))
+    ctx.cover(generator="tolerance-bound family (scalar constants at the float32 neighbours of the exact bound, both sides, both operand orders, "
+              "commute) + list-constant family (same elements at ranks 0/1/2/3, other lengths, element at the bound) + corpus/C06 (findings, feature cases) + bounded-exhaustive family (351 patterns with <=3 node patterns over "
               "{Relu/Neg, Add, Sub, Split} x {repeated var, const, any, attr const/var/optional, allow_other_inputs/attributes, None / optional "
               "input, domain, named / 2 outputs, several output nodes, OrValue dispatch/backtracking/name/tag} x all hosts with <=2 nodes, sampled "
               "3- and 4-node hosts and their attribute/input/constant/graph-output variants; quick = one pattern per feature combination and a seeded "
@@ -624,10 +637,57 @@ def run(ctx):
     ctx.trust("harness/c06_spec.py: brute-force evaluation of the declarative meaning (enumeration of all node maps, cross-checked against a "
               "nondeterministic search and, for every reported match, against the Coq instance checker) and a direct evaluator of the "
               "committed-choice meaning (cross-checked against the Coq model through the correspondence: both must agree with the matcher)")
+    c06_checks.run(ctx)
+    api_keywords(ctx)
     for m in batch.meta[:: max(1, len(batch.meta) // 5)][:5]:
         ctx.sample({"pattern": m["p"], "host": m["h"], "root": m["root"], "removable": m["rm"], "observed": m["obs"][0]})
     if ctx.tier == "thorough":
         ctx.coqchk(["Props.C06"])
+
+
+def api_keywords(ctx):
+    """The keywords of the pattern builder that the model has no counterpart for must stay refused / absent: `_version`
+    (refused with ValueError: version restrictions belong to the rule), a non-string `_domain` (TypeError), and the
+    keyword set of OpPatternBuilder.__call__ / Var / Constant / OrValue / AttrVar (a new keyword = a feature the model
+    does not have: broken tie)."""
+    import inspect
+    from onnxscript.rewriter import _pattern_ir as I, pattern as P
+    got = {}
+    for label, kw in (("_version", {"_version": 18}), ("_domain-not-a-string", {"_domain": P.torch_module_op})):
+        def mkfn(kw):
+            def fn(op, x):
+                return op.Relu(x, **kw)
+            return fn
+        try:
+            P.Pattern(mkfn(kw))
+            got[label] = "accepted"
+        except Exception as e:          # noqa: BLE001
+            got[label] = type(e).__name__
+    expect = {"_version": "ValueError", "_domain-not-a-string": "TypeError"}
+    for k in expect:
+        if got[k] != expect[k]:
+            ctx.tie_broken("translator", "pattern-api-keyword", f"{k}: the pattern builder answers {got[k]}, the model assumes it is refused ({expect[k]})")
+    sigs = {
+        "OpPatternBuilder.__call__": (I.OpPatternBuilder.__call__, ["self", "args", "_domain", "_version", "_outputs", "_allow_other_attributes",
+                                                                    "_allow_other_inputs", "_check", "kwargs"]),
+        "Var": (I.Var.__init__, ["self", "name", "check", "can_match_none"]),
+        "Constant": (I.Constant.__init__, ["self", "value", "rel_tol", "abs_tol"]),
+        "OrValue": (I.OrValue, ["values", "name", "tag_var", "tag_values"]),
+        "AttrVar": (I.AttrVar.__init__, ["self", "name", "can_match_none"]),
+        "NodePattern": (I.NodePattern.__init__, ["self", "domain", "op", "inputs", "attributes", "outputs", "allow_other_attributes",
+                                                 "allow_other_inputs", "check"]),
+    }
+    for label, (f, names) in sigs.items():
+        have = list(inspect.signature(f).parameters)
+        if have != names:
+            ctx.tie_broken("translator", "pattern-api-signature", f"{label}{have} differs from the keyword set the model was written for {names}")
+    d = I.Constant(1.0)
+    if (d._rel_tol, d._abs_tol) != (1e-5, 1e-8):
+        ctx.tie_broken("translator", "constant-default-tolerances", f"Constant defaults are {(d._rel_tol, d._abs_tol)}, the description language assumes (1e-5, 1e-8)")
+    ctx.obligation("pattern API keywords: _version and a non-string _domain are refused; the keyword sets of the pattern constructors are the ones "
+                   "the model covers; default tolerances (1e-5, 1e-8)", not any(t["name"].startswith(("pattern-api", "constant-default")) for t in ctx.ties),
+                   str(got))
+    ctx.cover(pattern_api_keywords=got)
 
 
 def replay(doc):
